@@ -47,7 +47,7 @@ def load_module(pid: str):
 def base_env(mod) -> dict:
     env = dict(os.environ)
     env["PYTHONHASHSEED"] = "0"
-    env["PYTHONPATH"] = f"{ROOT}:/repo" + (":" + env["PYTHONPATH"] if env.get("PYTHONPATH") else "")
+    env["PYTHONPATH"] = f"{ROOT}:{os.environ.get('VP_REPO', '/repo')}" + (":" + env["PYTHONPATH"] if env.get("PYTHONPATH") else "")
     env["PYXEL_VERIF"] = "1"
     env["PYTHONWARNINGS"] = "ignore"
     env["OMP_NUM_THREADS"] = "1"
